@@ -33,6 +33,16 @@ def shape_of(i):
     return "".join(ks)
 
 
+def opcode_of(b, l):
+    """the opcode bytes (and /digit for group opcodes) of the row: part of every ill-formedness signature, so that a listed defect
+    of one row of a mnemonic does not cover another row of the same mnemonic"""
+    from checks.c01_decode import row_key
+    k = row_key(b, l)
+    groups = ("80", "81", "82", "83", "8f", "c0", "c1", "c6", "c7", "d0", "d1", "d2", "d3", "f6", "f7", "fe", "ff", "0f00", "0f01", "0fba", "0fc7", "0f71", "0f72", "0f73", "0fae",
+              "d8", "d9", "da", "db", "dc", "dd", "de", "df")
+    return k[1] + (k[2] if k[1] in groups else "")
+
+
 def text(i):
     try:
         return " ".join(str(i).split())
@@ -73,7 +83,7 @@ def judge(b, st=None):
         for k, d in probs:
             if k not in seen:
                 seen.add(k)
-                out.append(((k, name, "o16" if mode.startswith("o16") else ""), "%s (%s): %s" % (b[:i.l].hex(), text(i), d)))
+                out.append(((k, name, ("o16" if mode.startswith("o16") else "") + ("a16" if mode.endswith("a16") else ""), opcode_of(b, i.l)), "%s (%s): %s" % (b[:i.l].hex(), text(i), d)))
         return ("fails", out)
     return ("ok", name, shape_of(i), mode, text(i), len(ex))
 
